@@ -27,6 +27,7 @@ package filehandler
 // resumes within the tolerance is never abandoned, however many earlier pauses there were.
 //@ define runStart(rd, j, k0, n) = forall(r, j, n, rdN(rd, r) == 0) && (j == k0 || rdN(rd, j - 1) > 0)
 //@ func (*Handler).Handle
+//@ spawns[C09,C13] HandleMessages
 //@ requires handler != nil && reader != nil && handler.Config != nil
 //@ requires handler.MessageChan != nil && !closed(handler.MessageChan) && allocated(handler.MessageChan)
 //@ noterm the reader stage runs until its source fails for good (end of file beyond the tolerance or another error); that the source eventually does is a hypothesis of C09/C13
